@@ -1,2 +1,22 @@
 #!/bin/sh
-exit 0
+# Build the framework from files on disk only (offline): regenerate the tables from
+# /repo, full .vo build of the Coq development (no -vos), extraction + OCaml driver,
+# and the Rust harness against /repo's working tree.
+set -e
+cd "$(dirname "$0")"
+export CARGO_NET_OFFLINE=true
+python3 tools/translate.py || echo "translate: some tables untranslatable (checks will report)"
+cd coq
+coq_makefile -f _CoqProject -o Makefile
+timeout 7200 make -j16 || echo "coq: some files do not compile on this tree (checks will report)"
+cd ..
+python3 - <<'PY'
+import sys, os
+sys.path.insert(0, "tools")
+import vlib
+ok, out = vlib.build_model()
+print("model:", "ok" if ok else out[-2000:])
+for c in ("default", "nostd", "serialize"):
+    ok, out, b = vlib.build_harness(c)
+    print("harness", c, ":", "ok" if ok else out[-2000:])
+PY
